@@ -12,6 +12,7 @@ import (
 
 func registerMoreIntrinsics() {
 	registerECIntrinsics()
+	registerSyncMapIntrinsics()
 	registerKVIntrinsics()
 	registerThreadIntrinsics()
 	m := map[string]intrinsicFn{
@@ -318,4 +319,50 @@ func (p *Path) timeLess(x, y Value) *Term {
 		return tb.Or(tb.ILt(s1, s2), tb.And(tb.Eq(s1, s2), tb.ILt(f1, f2)))
 	}
 	return tb.Or(tb.Slt(s1, s2), tb.And(tb.Eq(s1, s2), tb.Slt(f1, f2)))
+}
+
+// sync.Map: an association list per receiver (sequential semantics; under vr.Go threads
+// every call is atomic, which is what sync.Map guarantees).
+func (p *Path) syncMapOf(recv Value) *Map {
+	a, _ := recv.(Ptr)
+	if a == nil {
+		p.goPanicf("nil-deref", "nil *sync.Map")
+	}
+	tab, _ := p.extra["syncmaps"].(map[*Value]*Map)
+	if tab == nil {
+		tab = map[*Value]*Map{}
+		p.extra["syncmaps"] = tab
+	}
+	m := tab[(*Value)(a)]
+	if m == nil {
+		m = &Map{}
+		tab[(*Value)(a)] = m
+	}
+	return m
+}
+
+func registerSyncMapIntrinsics() {
+	intrinsics["(*sync.Map).Load"] = func(p *Path, _ *ssa.Function, a []Value) Value {
+		m := p.syncMapOf(a[0])
+		if i := p.mapFind(m, a[1]); i >= 0 {
+			return Tuple{copyVal(m.vals[i]), p.tb.True}
+		}
+		return Tuple{Iface{}, p.tb.False}
+	}
+	intrinsics["(*sync.Map).Store"] = func(p *Path, _ *ssa.Function, a []Value) Value {
+		p.mapSet(p.syncMapOf(a[0]), a[1], copyVal(a[2]))
+		return nil
+	}
+	intrinsics["(*sync.Map).LoadOrStore"] = func(p *Path, _ *ssa.Function, a []Value) Value {
+		m := p.syncMapOf(a[0])
+		if i := p.mapFind(m, a[1]); i >= 0 {
+			return Tuple{copyVal(m.vals[i]), p.tb.True}
+		}
+		p.mapSet(m, a[1], copyVal(a[2]))
+		return Tuple{copyVal(a[2]), p.tb.False}
+	}
+	intrinsics["(*sync.Map).Delete"] = func(p *Path, _ *ssa.Function, a []Value) Value {
+		p.mapDelete(p.syncMapOf(a[0]), a[1])
+		return nil
+	}
 }
